@@ -495,7 +495,7 @@ class Sampler:
         self.rng = rng
         self.max_depth = max_depth
         self.w = weights or {"E": 3, "Y": 5, "IF": 3, "IFE": 2, "ELIF": 1, "FOR": 3, "INF": 1, "WHILE": 1, "SW": 2, "SWD": 2,
-                             "BLK": 1, "BRK": 2, "CNT": 2, "RET": 1, "DECL": 2, "ASSIGN": 2}
+                             "BLK": 1, "BRK": 2, "CNT": 2, "RET": 1, "DECL": 2, "ASSIGN": 2, "NAT": 2}
 
     def body(self, budget, ctr, loopvars, in_loop, in_switch, depth, scope):
         out = []
@@ -518,7 +518,7 @@ class Sampler:
                 continue
             if k == "CNT" and not in_loop:
                 continue
-            if k in ("IF", "IFE", "ELIF", "FOR", "INF", "WHILE", "SW", "SWD", "BLK") and (depth >= self.max_depth or budget[0] < 2):
+            if k in ("IF", "IFE", "ELIF", "FOR", "INF", "WHILE", "SW", "SWD", "BLK", "NAT") and (depth >= self.max_depth or budget[0] < 2):
                 continue
             if k == "ASSIGN" and not scope:
                 continue
@@ -568,6 +568,24 @@ class Sampler:
         if k == "INF":
             v = ctr.var()
             return [("decl", v, "0"), ("for", None, None, None, [("inc", v), ("if", "%s > n" % v, [("break",)], None)] + sub(True, False, loopvars + [v]))]
+        if k == "NAT":
+            # a yield-free loop (stays a native Go loop) whose body has a switch with continue / break
+            v = ctr.var()
+            acc = "t%s" % v
+            cases = []
+            for ci in range(rng.randint(1, 2)):
+                cb = [rng.choice([("continue",), ("break",), ("assign", acc, "%s + %d" % (acc, ci + 1)), ("eff", ctr.eff())])]
+                if cb[0][0] == "assign" and rng.random() < 0.5:
+                    cb.append(("if", ctr.guard(), [rng.choice([("continue",), ("break",)])], None))
+                cases.append((str(ci), cb))
+            default = [rng.choice([("continue",), ("assign", acc, acc + " + 7"), ("eff", ctr.eff())])] if rng.random() < 0.6 else None
+            body = [("switch", None, "%s&%d" % (v, rng.choice([1, 3])), cases, default), ("assign", acc, "%s + %s + a" % (acc, v))]
+            if rng.random() < 0.4:
+                body.append(("if", ctr.guard(), [("continue",)], None))
+                body.append(("effv", 2, acc))
+            out = [("decl", acc, "0"), ("for", ("decl", v, "0"), "%s < n" % v, ("inc", v), body), ("yield", "%s + %d" % (acc, ctr.y * 10 + 5))]
+            ctr.y += 1
+            return out
         if k in ("SW", "SWD"):
             tag = rng.choice(["a&3", "b&1", "n", "a&1"])
             ncases = rng.randint(1, 2)
@@ -1065,6 +1083,15 @@ class ScopeSampler:
             b2 = strip_jumps(self.body(budget, scopes, in_loop, depth + 1) or [("eff", self.k())])
             return [("raw", "var %s any = %s\nif %s {\n\t%s = \"s\"\n}" % (tv, e, g, tv)),
                     ("tswitch", n, tv, [("int", b1)], b2)]
+        if k == "RANGE" and wr and rng.random() < 0.4:
+            # '=' forms assign to variables that are already in scope (observed after the loop)
+            tgt = rng.choice(wr)
+            kn, vn = rng.choice([("_", tgt), (tgt, None), (tgt, None if len(wr) < 2 else [w for w in wr if w != tgt][0])])
+            coll = "[]int{%s, %s}" % (self.expr(scopes), self.expr(scopes))
+            names = [t for t in (kn, vn) if t and t != "_"]
+            inner = scopes + [{"vars": [], "clos": [], "ro": names}]
+            body = [("effv", 6, t) for t in names] + (self.body(budget, inner, True, depth + 1) or [("eff", self.k())])
+            return [("range", kn, vn, "=", coll, body)] + [("yield", "%s + %d" % (t, self.k())) for t in names]
         if k == "RANGE":
             kn, vn = rng.choice([("x", "y"), ("y", "x"), ("_", "x"), ("x", None)])
             names = [t for t in (kn, vn) if t and t != "_"]
@@ -1111,7 +1138,8 @@ def c04_programs(strlens=(0, 1, 2, 3)):
     kinds.append(("mapnil", ["var m map[int]int"], "m", "int", "int", []))
     kinds.append(("chan", ["ch := make(chan int, 3)\nch <- a\nch <- b\nclose(ch)"], "ch", "int", None, []))
     for kname, setup, coll, kt, vt, muts in kinds:
-        forms = [("kv", "k", "v", ":="), ("k", "k", None, ":="), ("v", "_", "v", ":="), ("none", None, None, ":="), ("assign", "k", "v", "=")]
+        forms = [("kv", "k", "v", ":="), ("k", "k", None, ":="), ("v", "_", "v", ":="), ("none", None, None, ":="), ("assign", "k", "v", "="),
+                 ("assignv", "_", "v", "="), ("assignk", "k", None, "=")]
         if vt is None:  # channel: one variable only
             forms = [("k", "k", None, ":="), ("none", None, None, ":="), ("assign1", "k", None, "=")]
         for fname, K, V, tok in forms:
@@ -1125,13 +1153,20 @@ def c04_programs(strlens=(0, 1, 2, 3)):
 
             pre = [("raw", x) for x in setup]
             if tok == "=":
+                decl = []
+                if K and K != "_":
+                    decl.append("var k int = -7")
                 if V:
-                    pre.append(("raw", "var k int\nvar v %s" % ("rune" if vt == "rune" else "int")))
-                else:
-                    pre.append(("raw", "var k int"))
+                    decl.append("var v %s = -9" % ("rune" if vt == "rune" else "int"))
+                pre.append(("raw", "\n".join(decl)))
             post = []
             if tok == "=":
-                post.append(("yield", "int(k)*100 + 1" if not V else "int(k)*100 + int(v)"))
+                obs = []
+                if K and K != "_":
+                    obs.append("int(k)*100")
+                if V:
+                    obs.append("int(v)")
+                post.append(("yield", " + ".join(obs) + " + 1"))
             shapes = []
             shapes.append(("y", [("yield", val())]))
             shapes.append(("noy", [("assign", "t", "t + " + val())]))
@@ -1142,6 +1177,10 @@ def c04_programs(strlens=(0, 1, 2, 3)):
                 shapes.append(("muta%d" % mi, [("yield", val()), ("if", "g1", [("raw", mtxt)], None)]))
                 shapes.append(("mutn%d" % mi, [("assign", "t", "t + " + val()), ("if", "g1", [("raw", mtxt)], None)]))
             shapes.append(("nest", [("range", "_", "w", ":=", "[]int{1, 2}", [("yield", val() + " + w")])]))
+            # yield-free loop bodies with a switch: continue / break stay native
+            shapes.append(("noy_sw_cont", [("switch", None, "(%s)&1" % val(), [("0", [("continue",)])], None), ("assign", "t", "t + " + val())]))
+            shapes.append(("noy_sw_brk", [("switch", None, "(%s)&1" % val(), [("0", [("break",)])], [("assign", "t", "t + 1")]), ("assign", "t", "t + " + val())]))
+            shapes.append(("closure_capture", [("raw", "get := func() int { return %s }" % val()), ("yield", "get()")]))
             for sname, body in shapes:
                 stmts = list(pre) + [("decl", "t", "0")]
                 stmts.append(("range", K, V, tok, coll, body))
@@ -1547,3 +1586,68 @@ def il_driver(name, k, m, makers):
 	}
 	rt.AssertDisjointFootprints(1410)
 }""" % {"name": name, "k": k, "m": m, "mk": mk}
+
+
+# ---------------------------------------------------------------------------------------------
+# expression forms: a yield whose argument is the only thing in its delayed block, built from a
+# variable that changes between construction of the enclosing combinator and execution
+
+EXPR_HELPERS = """type pt@ struct{ x, y int }
+
+func idf@(x int) int { return x }
+"""
+
+INT_FORMS = [
+    ("var", "{v}"), ("neg", "-{v}"), ("pos", "+{v}"), ("compl", "^{v}"), ("paren", "({v})"), ("plus1", "{v} + 1"), ("negplus", "-{v} + 1"),
+    ("times2", "{v} * 2"), ("shift", "{v} << 1"), ("conv", "int(int32({v}))"), ("call", "idf@({v})"), ("index", "[]int{{7, 8}}[{v}&1]"),
+    ("slicelit", "[]int{{{v}, 1}}[0]"), ("structlit_field", "pt@{{{v}, 1}}.x"), ("funclit", "func() int {{ return {v} }}()"),
+    ("lenlit", "len([]int{{{v}}}) + {v}"), ("negcall", "-idf@({v})"), ("notnot", "map[bool]int{{true: 1, false: 0}}[!({v} > 0)] + {v}"),
+    ("deref", "*(&{v})"), ("eff", "rt.Eff(950, {v})"), ("negeff", "-rt.Eff(951, {v})"),
+]
+
+ANY_FORMS = [
+    ("structlit", "pt@{{{v}, 2}}"), ("structlit_keyed", "pt@{{x: {v}, y: {v} + 1}}"), ("structlit_eff", "pt@{{rt.Eff(952, {v}), rt.Eff(953, b)}}"),
+    ("arraylit", "[2]int{{{v}, 3}}"), ("slicelit", "[]int{{{v}, {v} + 1}}"), ("nested", "pt@{{idf@({v}), -{v}}}"), ("anyint", "{v}"), ("negany", "-{v}"),
+]
+
+
+def exprform_programs():
+    progs = []
+    for ret, forms in (("int", INT_FORMS), ("any", ANY_FORMS)):
+        for name, form in forms:
+            def E(v):
+                return form.format(v=v)
+            shapes = {
+                # the yield is the whole loop body; i changes between iterations
+                "loop": [("for", ("decl", "i", "0"), "i < n", ("inc", "i"), [("yield", E("i"))])],
+                # while-style loop with the yield first and the update after
+                "loop_upd": [("decl", "w", "a"), ("decl", "c", "0"), ("for", None, "c < n", None, [("yield", E("w")), ("assign", "w", "w + 3"), ("inc", "c")])],
+                # statement right after a loop (second half of a Combine)
+                "after_loop": [("decl", "s", "a"), ("for", ("decl", "i", "0"), "i < n", ("inc", "i"), [("assign", "s", "s + i + 1"), ("yield", "i")]), ("yield", E("s"))],
+                # first statement of the body reading a variable that a previous yield's continuation updates
+                "seq": [("decl", "x", "a"), ("yield", E("x")), ("assign", "x", "b"), ("yield", E("x")), ("if", "g1", [("assign", "x", "x + 5")], None), ("yield", E("x"))],
+                # in both arms of an if after a yielding if
+                "after_if": [("decl", "x", "a"), ("if", "g1", [("yield", "1"), ("assign", "x", "b")], None), ("yield", E("x"))],
+                # in a switch case after an update
+                "in_switch": [("decl", "x", "a"), ("yield", "0"), ("assign", "x", "x + b"), ("switch", None, "n", [("1", [("yield", E("x"))])], [("yield", E("x") if ret == "any" else E("x") + " + 1")])],
+            }
+            for sname, body in shapes.items():
+                if ret == "any":
+                    body = [tuple(("yield", y[1] if not y[1].isdigit() and y[1] not in ("i",) else y[1]) if y[0] == "yield" else y for y in st) if False else st for st in body]
+                pid = "x_%s_%s_%s" % (ret, name, sname)
+                p = Program(pid, body, helpers=EXPR_HELPERS, family="xf" + ret, ret_type=ret, tags={"exprform:" + name, "shape:" + sname})
+                progs.append(p)
+    for p in progs:
+        p.helpers = p.helpers.replace("@", p.pid)
+        p.body = subst_at(p.body, p.pid)
+    return progs
+
+
+def subst_at(x, pid):
+    if isinstance(x, str):
+        return x.replace("@", pid)
+    if isinstance(x, tuple):
+        return tuple(subst_at(y, pid) for y in x)
+    if isinstance(x, list):
+        return [subst_at(y, pid) for y in x]
+    return x
